@@ -138,7 +138,8 @@ def validate(
         else:
             continue
         if validator.field is not None:
-            alias = getattr(get_alias(validator.owner), get_field_name(validator.field))
+            # alias of the validated class, which can differ from validator owner's one
+            alias = getattr(get_alias(obj), get_field_name(validator.field))
             err = ValidationError(children={aliaser(alias): err})
         error = merge_errors(error, err)
         if validator.discard:
